@@ -108,6 +108,29 @@ fn lex_float(a: &[f32], b: &[f32]) -> Option<Ordering> {
     unreachable!()
 }
 
+/// A legitimate `Hasher` that is sensitive to how the bytes are chunked into `write` calls (like
+/// the word-at-a-time hashers people plug into HashMap): equal values must hash equally under
+/// it too, which for a container means issuing the same sequence of calls whatever its layout.
+pub struct ChunkHasher(pub u64);
+impl Hasher for ChunkHasher {
+    fn finish(&self) -> u64 {
+        self.0
+    }
+    fn write(&mut self, bytes: &[u8]) {
+        let mut x = self.0 ^ 0x9E37_79B9_7F4A_7C15u64.wrapping_mul(bytes.len() as u64 + 1);
+        for b in bytes {
+            x = (x ^ *b as u64).wrapping_mul(0x100000001b3);
+        }
+        self.0 = x.rotate_left(23);
+    }
+}
+
+fn hc<T: Hash>(t: &T) -> u64 {
+    let mut s = ChunkHasher(0xcbf29ce484222325);
+    t.hash(&mut s);
+    s.finish()
+}
+
 fn h<T: Hash>(t: &T) -> u64 {
     let mut s = DefaultHasher::new();
     t.hash(&mut s);
@@ -197,6 +220,21 @@ fn int_pair<const N: usize, const M: usize>(sa: usize, va: &[i32], sb: usize, vb
         }
         if eq && h(&a) != h(&b3) {
             return Err(format!("equal buffers of the same capacity hash differently: {:?}, layouts start {} and {}", va, sa, sb));
+        }
+        if eq {
+            // primitive element types (whose hash_slice is one bulk write) under a hasher that is
+            // sensitive to the chunking of its input
+            let p1 = build::<N, i32>(sa, va, JUNK);
+            let p2 = build::<N, i32>(sb, vb, JUNK);
+            if hc(&p1) != hc(&p2) || hc(&a) != hc(&b3) {
+                return Err(format!("equal buffers of the same capacity hash differently under a chunk-sensitive hasher (i32 elements): {:?}, layouts start {} and {}", va, sa, sb));
+            }
+            let v8: Vec<u8> = va.iter().map(|v| *v as u8).collect();
+            let q1 = build::<N, u8>(sa, &v8, 0xEE);
+            let q2 = build::<N, u8>(sb, &v8, 0xEE);
+            if hc(&q1) != hc(&q2) || h(&q1) != h(&q2) {
+                return Err(format!("equal buffers of the same capacity hash differently under a chunk-sensitive hasher (u8 elements): {:?}, layouts start {} and {}", va, sa, sb));
+            }
         }
     }
     Ok(flags)
